@@ -370,7 +370,7 @@ def run(chk):
     if not chk.harness_ok:
         return
     rng = chk.rng
-    n = 1500 if chk.tier == 'quick' else 30000
+    n = 6000 if chk.tier == "quick" else 90000
     wit = [{'lang': l, 'cfg': cfg, 'src': s, 'info': {'generics': ['T'], 'positions': [], 'triggers': ['witness']}, 'witness': fid} for fid, l, cfg, s in WITNESSES]
     cases = wit + cases_for(rng, n)
     res = evaluate(chk, cases)
@@ -421,7 +421,7 @@ def run(chk):
             continue
         corr.append(payload_of(r))
     # multi-file Swift: the definition of CodableVoid lives in Codable.swift
-    nm = 24 if chk.tier == 'quick' else 300
+    nm = 48 if chk.tier == "quick" else 600
     jobs = []
     for k in range(nm):
         a, _ = program(rng, 'swift')
